@@ -1083,13 +1083,14 @@ impl Session {
                 v
             };
             lines.push(format!(
-                "TRK {} u2e={} e2u={} queue={} ctok={} htok={} promo={}",
+                "TRK {} u2e={} e2u={} queue={} ctok={} htok={} ptok={} promo={}",
                 p,
                 if u2e.is_empty() { "-".to_string() } else { u2e.join(",") },
                 t.entity_to_uuid.len(),
                 t.queue.len(),
                 if ctok.is_empty() { "-".to_string() } else { ctok.join(",") },
                 t.handle_tokens.len(),
+                t.parent_tokens.len(),
                 t.host_promotion_in_progress as u8
             ));
         }
